@@ -600,6 +600,25 @@ TokenLogOK(toks, ten, tex) ==
        /\ ten[j].ch = toks[j].ch0
   /\ \A q \in (Len(toks) + 1)..Len(tex) : tex[q].ch = 0
 
+\* statement nodes of a tree (also of a tree returned with errors): each was produced by one
+\* statement parse step, so a statement interceptor has entered at least that many times
+RECURSIVE StmtNodes(_)
+StmtNodes(x) ==
+  IF IsNilNode(x) THEN 0
+  ELSE (IF x.k \in {"let", "ret", "expr", "fdecl", "if", "while", "for"} THEN 1
+        ELSE IF x.k = "blk" THEN 1 ELSE 0)
+       + LET RECURSIVE SumC(_)
+             SumC(j) == IF j > Len(x.c) THEN 0 ELSE StmtNodes(x.c[j]) + SumC(j + 1)
+         IN SumC(1)
+\* blocks that are function bodies are not statements of their own: one per fdecl / fn node
+RECURSIVE FnBodies(_)
+FnBodies(x) ==
+  IF IsNilNode(x) THEN 0
+  ELSE (IF x.k \in {"fdecl", "fn"} /\ Len(x.c) >= 3 /\ ~IsNilNode(x.c[3]) THEN 1 ELSE 0)
+       + LET RECURSIVE SumF(_)
+             SumF(j) == IF j > Len(x.c) THEN 0 ELSE FnBodies(x.c[j]) + SumF(j + 1)
+         IN SumF(1)
+
 C04_Failures(rec) ==
   LET ns == KindCount(rec.inst, {"s"})
       ne == ActiveExpr(rec.inst)
@@ -620,6 +639,8 @@ C04_Failures(rec) ==
   \cup (IF WellNested(sl, ns) /\ WellNested(el, ne) THEN {} ELSE {"not_once_per_step_in_installation_order"})
   \cup (IF ~clean \/ ns = 0 \/ [j \in 1..Len(sent) |-> sent[j].tok] = [j \in 1..Len(sreq) |-> sreq[j].tok]
         THEN {} ELSE {"statement_steps_or_current_token"})
+  \* also for inputs with errors: no statement node without a statement step
+  \cup (IF ns = 0 \/ Len(sent) >= StmtNodes(rec.tree) - FnBodies(rec.tree) THEN {} ELSE {"statement_in_tree_without_interceptor_step"})
   \cup (IF ~clean \/ ne = 0 \/ [j \in 1..Len(eent) |-> eent[j].tok] = [j \in 1..Len(ereq) |-> ereq[j].tok]
         THEN {} ELSE {"expression_steps_or_current_token"})
   \cup (IF \A i \in 1..nt : TokenLogOK(rec.toks, ten(i), tex(i))
